@@ -1,6 +1,95 @@
-(* C07Proofs.v -- property C07 "determinism and independence of declaration order / hash seed".
-   (header comment completed at the end of the development; see the bottom of the file for the
-   list of main theorems and the Print Assumptions.) *)
+(* C07Proofs.v -- property C07 "A run is a function of the statechart's structure and the input
+   history only": independence of the declaration order of states / children / transitions and of
+   the iteration order of Python sets (string-hash seed).
+
+   STATUS: goals 1-5 proved in full for the current model (theories/Interp.v, i.e. /repo after the
+   fix: commits: exit order sorted by (-depth, name), same-source pairs rejected first).  No proof
+   is left open, no axioms; every Print Assumptions at the end says "Closed under the global context".
+   One `_refuted` lemma documents why errors are compared up to "which guard failed" (see below).
+
+   HOW DECLARATION ORDER / HASH SEED APPEAR IN THE MODEL
+     declaration order : order of c_states, c_parent, of the keys of c_children and of every children
+                         list, order of c_transitions (a transition IS its index: ms_trans, OTrans i)
+     hash seed         : order of the list i_config (a Python set) and of the lists stored in i_memory
+   Renaming of transition indices by pi : nat -> nat : omap imap mmap emap cmap obmap oldmap macmap.
+
+   RELATIONS
+     hs_equiv i1 i2        i2 = i1 with i_config permuted and i_memory replaced by a dictionary with the
+                           same lookups up to Permutation of the values (mem_rel)
+     ms_equiv s1 s2        hs_equiv on m_i, equal listener state m_x, EQUAL observation trace m_tr
+     ms_equiv_err          the same without the history memory (state reached when an error is raised)
+     same_outcome o1 o2    equal result / equal error, post-states ms_equiv (ms_equiv_err after an error)
+     struct_equiv sc1 sc2  state_for, parent_for equal; children_for, descendants_for Permutations;
+                           root equal; |c_parent| equal; children lists equal or all children registered
+     chart_perm sc1 sc2 pi struct_equiv + pi injective, nth_error (c_transitions sc2) (pi i)
+                           = nth_error (c_transitions sc1) i, same number of transitions
+     perm_chart sc1 sc2    the concrete notion: c_states, c_parent, c_transitions Permutations; c_children
+                           a Permutation whose values are Permutations.  perm_chart_sim: with decl_wf sc1
+                           (unique keys, unique root, children registered) and desc_ok of both charts it
+                           yields some pi with chart_perm.  perm_chart_rev: reversing every declaration
+                           list of ANY chart is an instance.
+     run_equiv pi s1 s2    IR (fields equal, i_config Permutation, mem_rel, i_old keys renamed by pi),
+                           equal m_x, and traces equal after renaming once the guard evaluations and the
+                           model-only ObSelected entries are deleted (RtB)
+     BP pi ts1 ts2         selected transitions: same blocks (one per source) in the same order, each
+                           block a Permutation (through pi)
+     ERB pi e1 e2          e2 = emap pi e1, or both are guard CodeEvaluationErrors
+
+   MAIN THEOREMS (hypotheses in brackets)
+   Goal 1  C07_hashseed_execute_once   [ms_equiv s1 s2; NO hypothesis on the chart, not even NoDup cfg]
+             execute_once on the same chart: same_outcome (same macro step or same error, same trace).
+           C07_hashseed_ops            the same for any sequence of queue / execute_once / execute.
+           function level: C07_hashseed_considered, _select_transitions (result and guard trace),
+             _create_steps, _leaf_for (Permutation, and the sorted leaves EQUAL), _stabilization_step,
+             _configuration, _mk_call (hence cl_config), _record_history, _config_updates (set_add,
+             remove_first preserve Permutation).  Key fact: sort by an antisymmetric total order is a
+             function of the multiset (c7_sort_perm_eq), so distinctness of keys is not even needed.
+   Goal 2  C07_decl_children, C07_decl_children_ops   [struct_equiv sc1 sc2, same c_transitions, ms_equiv]
+             same_outcome, including the full observation trace.
+           function level: C07_decl_ancestors, _depth, _lca, _descendants (Permutation; sorted EQUAL),
+             _sorted_children, _root, _stays_below, _check_pair, _create_step, _leaf_for,
+             _configuration, _stabilization_step, _record_history, _select_transitions.
+   Goal 3  C07_decl_transitions        [chart_perm, eval blind to the index] select_transitions selects
+             BP-related lists (C07_selected_same_set: the same set through pi, the same multiset of
+             records) or both fail with a guard error; guard observations are not compared.
+           C07_error_kind              BP ts1 ts2 -> check_pairs sc2 ts2 = check_pairs sc1 ts1  (the SAME
+             error, not only the same kind: the planned C07_error_kind_refuted does NOT hold; the
+             mixed ENonDeterminism/EConflict situation is order independent because a block with two
+             transitions is met before any pair involving a later block and same-source pairs yield
+             ENonDeterminism, while inside a block all offending pairs with a fixed earlier transition
+             carry one and the same error: cp_same_source).
+           C07_sort_transitions_decl   same error or the same ordered list (indices renamed).
+   Goal 4  C07_decl_order, C07_decl_order_ops, C07_decl_order_perm
+             [chart_perm sc1 sc2 pi (resp. perm_chart + decl_wf + desc_ok); exec/eval do not depend on the
+              index of the owning transition: exec (cmap pi c) = exec c; listener errors do not mention
+              indices; run_equiv pi s1 s2 (run_equiv_init: holds for fresh interpreters)]
+             execute_once / any operation sequence: both succeed with macro steps equal up to pi
+             (consumed event, transitions, entered, exited, sent lists; contexts equal in run_equiv) or
+             both fail with ERB-related errors.
+   Goal 5  c07_chart / rev_chart c07_chart (children of the orthogonal state and transitions swapped):
+             c07_same_runs, c07_run_shape, c07_orders_differ, c07_chart_perm, c07_decl_order_instance,
+             c07_hashseed_instance/_run, c07_struct_equiv, c07_decl_children_runs/_instance,
+             c07_same_error (ENonDeterminism in both orders).
+           C07_function                trivial: the model is a function.
+
+   REFUTED (kept deliberately)
+     C07_guard_error_owner_refuted: "same error up to renaming" is false for guard errors: when the
+       guards of two transitions of one source both raise, the exception reported is the one of the
+       transition declared first.  Same KIND of error at the same step (what C07 asks), different
+       error object.  Likewise the ORDER of guard evaluations follows the declaration order.
+
+   GAPS / MODELLING REMARKS
+     - desc_ok (descendants_for has no duplicates and is the inverse of ancestors_for) is assumed for
+       BOTH charts in perm_chart_struct; it is decidable (desc_okb, desc_okb_sound) but not derived
+       from WF2 for the reordered chart (would need a completeness proof of the fuelled BFS).
+     - After an error the history memory is not compared when the children of a compound state are
+       declared in another order: record_history writes child by child in declaration order, so the
+       partial updates differ (all other fields are compared).
+     - exec/eval "blind to the index" is a hypothesis on the abstract evaluator (true of sismic: the
+       code only sees the transition's source state times, event, context).
+   The proof is one simulation (Section Sim: sim, sim_bind, ... sim_execute_once) parametric in the
+   trace relation, the error relation and the relation on selected transitions, instantiated twice:
+   SameOrder (identity renaming, full traces) and instance B (permuted transitions). *)
 From Coq Require Import String List Bool ZArith Sorted Permutation Lia.
 From Sismic Require Import Base Chart Interp.
 From SismicProofs Require Import SortLib FrameLib.
@@ -279,6 +368,30 @@ Section SgbRel.
     - intros x Hx. apply (In_grp _ _ keqb_spec) in Hx. destruct Hx as [Hx Hk]. split; assumption.
   Qed.
 End SgbRel.
+
+(* ---- sequences of API calls: queue(event), execute_once(), execute() ---- *)
+Inductive op := OQueue (e : event) | OStep (fuel : nat) (now : Z) | ORun (fuel : nat) (now : Z).
+
+Section Ops.
+  Variable ctx X : Type.
+  Variable exec : call ctx -> ctx -> option (ctx * list event).
+  Variable eval : call ctx -> ctx -> option bool.
+  Variable emit : Z -> meta -> X -> X * option err.
+  Variable sc : chart.
+  Definition run_op (o : op) : M ctx X (list macrostep) :=
+    match o with
+    | OQueue e => bind ctx X (queue ctx X e) (fun _ => ret ctx X [])
+    | OStep fuel now =>
+        bind ctx X (execute_once ctx X exec eval emit sc fuel now) (fun m =>
+        ret ctx X (match m with Some x => [x] | None => [] end))
+    | ORun fuel now => execute ctx X exec eval emit sc fuel now
+    end.
+  Fixpoint run_ops (ops : list op) : M ctx X (list macrostep) :=
+    match ops with
+    | [] => ret ctx X []
+    | o :: r => bind ctx X (run_op o) (fun a => bind ctx X (run_ops r) (fun b => ret ctx X (a ++ b)))
+    end.
+End Ops.
 
 (* ================================================================== Part 1: two charts *)
 (* Renaming of transition indices (the identity of a transition in the model is its index in
@@ -1350,6 +1463,49 @@ Section Charts.
       Qed.
     End Main.
 
+    (* ---------------------------------------------------------------- sequences of API calls *)
+    Definition macsmap (l : list macrostep) : list macrostep :=
+      map (fun p : macrostep => (fst p, map (mmap pi) (snd p))) l.
+
+    Section OpsSim.
+      Hypothesis Honce : forall fuel now,
+        sim (fun a b => b = macmap pi a)
+            (execute_once ctx X exec1 eval1 emit sc1 fuel now)
+            (execute_once ctx X exec2 eval2 emit sc2 fuel now).
+
+      Lemma sim_execute fuel : forall now,
+        sim (fun a b => b = macsmap a)
+            (execute ctx X exec1 eval1 emit sc1 fuel now) (execute ctx X exec2 eval2 emit sc2 fuel now).
+      Proof.
+        induction fuel as [|f IH]; intros now; cbn [execute]; [apply sim_fail; apply (ER_map EFuel)|].
+        eapply sim_bind; [apply Honce|]. intros m m' ->.
+        destruct m as [[t ex]|]; cbn [macmap option_map]; [|apply sim_ret; reflexivity].
+        eapply sim_bind; [apply IH|]. intros r r' ->. apply sim_ret. reflexivity.
+      Qed.
+
+      Lemma sim_run_op o :
+        sim (fun a b => b = macsmap a)
+            (run_op ctx X exec1 eval1 emit sc1 o) (run_op ctx X exec2 eval2 emit sc2 o).
+      Proof.
+        destruct o as [e|fuel now|fuel now]; cbn [run_op].
+        - apply sim_then; [|apply sim_ret; reflexivity].
+          unfold queue. apply sim_modify. intros i1 i2 HI. apply IR_queue_event; exact HI.
+        - eapply sim_bind; [apply Honce|]. intros m m' ->. apply sim_ret.
+          destruct m as [[t ex]|]; reflexivity.
+        - apply sim_execute.
+      Qed.
+
+      Lemma sim_run_ops ops :
+        sim (fun a b => b = macsmap a)
+            (run_ops ctx X exec1 eval1 emit sc1 ops) (run_ops ctx X exec2 eval2 emit sc2 ops).
+      Proof.
+        induction ops as [|o r IH]; cbn [run_ops]; [apply sim_ret; reflexivity|].
+        eapply sim_bind; [apply sim_run_op|]. intros a a' ->.
+        eapply sim_bind; [apply IH|]. intros b b' ->. apply sim_ret.
+        unfold macsmap. rewrite map_app. reflexivity.
+      Qed.
+    End OpsSim.
+
     (* ---------------------------------------------------------------- _select_transitions, generically *)
     (* LR relates the lists of candidate transitions of the two charts, SelR the lists of selected
        transitions; instantiated twice below (same declaration order / permuted order). *)
@@ -1612,6 +1768,22 @@ Section Charts.
           apply sim_ret. destruct ok.
           + split; [reflexivity|]. intros x [<-|Hx]; [left; reflexivity|right; apply Hincl; exact Hx].
           + split; [reflexivity|]. intros x Hx. right. apply Hincl; exact Hx.
+      Qed.
+
+      Lemma sim_select_A ev cfg1 cfg2 :
+        Permutation cfg1 cfg2 ->
+        sim LRA (select_transitions ctx X eval1 sc1 ev cfg1) (select_transitions ctx X eval2 sc2 ev cfg2).
+      Proof.
+        intros HP. apply (sim_select LRA LRA); try assumption.
+        - reflexivity.
+        - intros p1 p2 l1 l2 Hp ->. apply c7_filter_map; exact Hp.
+        - intros l1 l2 x -> Hx. apply in_map; exact Hx.
+        - intros l1 l2 y -> Hy. apply in_map_iff in Hy. destruct Hy as (x & <- & Hx).
+          exists x. split; [exact Hx|reflexivity].
+        - intros exposed l1 l2 ->. apply sim_eval_guards_A.
+        - reflexivity.
+        - intros s1 s2 r1 r2 -> -> _. unfold LRA. rewrite map_app. reflexivity.
+        - intros s1 s2 ->. split; [intros ->; reflexivity|]. destruct s1; [reflexivity|discriminate].
       Qed.
 
       Theorem sim_execute_once_A fuel now :
@@ -1880,6 +2052,222 @@ Section Charts.
      same error (not only the same kind) or the same ordered list of transition records *)
   Theorem C07_error_kind ts1 ts2 : BP ts1 ts2 -> check_pairs sc2 ts2 = check_pairs sc1 ts1.
   Proof. intros H. rewrite c7_check_pairs_same. symmetry. apply cp_BP; exact H. Qed.
+
+  (* ---- traces: everything except guard evaluations and the model-only ObSelected ---- *)
+  Definition keep (o : obs ctx) : bool :=
+    match o with
+    | ObEval c _ => negb (ckind_eqb (cl_kind c) CGuard)
+    | ObSelected _ => false
+    | _ => true
+    end.
+  Definition RtB (t1 t2 : list (obs ctx)) : Prop := map (obmap pi) (filter keep t1) = filter keep t2.
+  (* errors: the same error up to the renaming, or two guard evaluation errors (which guard fails
+     first depends on the declaration order) *)
+  Definition ERB (e1 e2 : err) : Prop :=
+    e2 = emap pi e1 \/ exists o1 o2, e1 = ECode CGuard o1 0 /\ e2 = ECode CGuard o2 0.
+
+  Lemma ERB_map e : ERB e (emap pi e).
+  Proof. left. reflexivity. Qed.
+  Lemma RtB_exec t1 t2 c r : RtB t1 t2 -> RtB (ObExec c r :: t1) (ObExec (cmap pi c) r :: t2).
+  Proof. unfold RtB. intros H. cbn [filter keep map obmap]. rewrite H. reflexivity. Qed.
+  Lemma RtB_meta t1 t2 m : RtB t1 t2 -> RtB (ObMeta m :: t1) (ObMeta m :: t2).
+  Proof. unfold RtB. intros H. cbn [filter keep map obmap]. rewrite H. reflexivity. Qed.
+  Lemma RtB_eval t1 t2 c r :
+    cl_kind c <> CGuard -> RtB t1 t2 -> RtB (ObEval c r :: t1) (ObEval (cmap pi c) r :: t2).
+  Proof.
+    unfold RtB. intros Hk H.
+    assert (K1 : keep (ObEval c r) = true) by (cbn [keep]; destruct (cl_kind c); try reflexivity; congruence).
+    assert (K2 : keep (ObEval (cmap pi c) r) = true) by exact K1.
+    cbn [filter]. rewrite K1, K2. cbn [map obmap]. rewrite H. reflexivity.
+  Qed.
+  Lemma RtB_drop1 t1 t2 o : keep o = false -> RtB t1 t2 -> RtB (o :: t1) t2.
+  Proof. unfold RtB. intros K H. cbn [filter]. rewrite K. exact H. Qed.
+  Lemma RtB_drop2 t1 t2 o : keep o = false -> RtB t1 t2 -> RtB t1 (o :: t2).
+  Proof. unfold RtB. intros K H. cbn [filter]. rewrite K. exact H. Qed.
+
+  (* ---- guards are pure: eval_guards only appends guard observations ---- *)
+  Definition gval (eval : call ctx -> ctx -> option bool) (sc : chart) (i : ist)
+             (exposed : option event) (it : itrans) : option bool :=
+    match t_guard (snd it) with
+    | None => Some true
+    | Some g => eval (mk_call ctx sc i CGuard (OTrans (fst it)) 0 (Some g) exposed) (i_ctx i)
+    end.
+  Definition gtrue eval sc i exposed it : bool :=
+    match gval eval sc i exposed it with Some true => true | _ => false end.
+  Definition quiet (s s' : mst) : Prop :=
+    m_i s' = m_i s /\ m_x s' = m_x s /\ filter keep (m_tr s') = filter keep (m_tr s).
+
+  Lemma quiet_refl s : quiet s s.
+  Proof. repeat split. Qed.
+  Lemma quiet_trans a b c : quiet a b -> quiet b c -> quiet a c.
+  Proof. intros (A1 & B1 & C1) (A2 & B2 & C2). repeat split; congruence. Qed.
+
+  Definition gstep eval sc exposed (it : itrans) : MM bool :=
+    match t_guard (snd it) with
+    | None => ret ctx X true
+    | Some g => eval_cond ctx X eval sc CGuard (OTrans (fst it)) 0 g exposed
+    end.
+
+  Lemma gstep_pure eval sc exposed it s :
+    match gstep eval sc exposed it s with
+    | (s1, inl ok) => quiet s s1 /\ gval eval sc (m_i s) exposed it = Some ok
+    | (s1, inr e) => quiet s s1 /\ gval eval sc (m_i s) exposed it = None
+                     /\ e = ECode CGuard (OTrans (fst it)) 0
+    end.
+  Proof.
+    unfold gstep, gval. destruct (t_guard (snd it)) as [g|].
+    - unfold eval_cond, bind, get. cbv zeta.
+      destruct (eval (mk_call ctx sc (m_i s) CGuard (OTrans (fst it)) 0 (Some g) exposed) (i_ctx (m_i s)))
+        as [b|]; unfold observe, ret, fail; cbn [m_i m_x m_tr].
+      + split; [|reflexivity]. repeat split.
+      + split; [|split; reflexivity]. repeat split.
+    - unfold ret. split; [apply quiet_refl|reflexivity].
+  Qed.
+
+  Lemma eval_guards_pure eval sc exposed l : forall s,
+    match eval_guards ctx X eval sc exposed l s with
+    | (s', inl res) =>
+        quiet s s' /\ res = filter (gtrue eval sc (m_i s) exposed) l
+        /\ (forall it, In it l -> gval eval sc (m_i s) exposed it <> None)
+    | (s', inr e) =>
+        quiet s s' /\ (exists it, In it l /\ gval eval sc (m_i s) exposed it = None)
+        /\ exists o, e = ECode CGuard o 0
+    end.
+  Proof.
+    induction l as [|it l IH]; intros s.
+    - cbn [eval_guards]. unfold ret. split; [apply quiet_refl|]. split; [reflexivity|intros it []].
+    - change (eval_guards ctx X eval sc exposed (it :: l))
+        with (bind ctx X (gstep eval sc exposed it) (fun ok =>
+              bind ctx X (eval_guards ctx X eval sc exposed l) (fun r =>
+              ret ctx X (if ok then it :: r else r)))).
+      unfold bind at 1. pose proof (gstep_pure eval sc exposed it s) as Hg.
+      destruct (gstep eval sc exposed it s) as [s1 [ok|e]].
+      + destruct Hg as [Q1 Hv]. unfold bind. specialize (IH s1).
+        assert (Ei : m_i s1 = m_i s) by apply Q1. rewrite Ei in IH.
+        destruct (eval_guards ctx X eval sc exposed l s1) as [s2 [r|e2]]; unfold ret.
+        * destruct IH as (Q2 & -> & Hdef). split; [eapply quiet_trans; eassumption|]. split.
+          -- assert (Hgt : gtrue eval sc (m_i s) exposed it = ok)
+               by (unfold gtrue; rewrite Hv; destruct ok; reflexivity).
+             cbn [filter]. rewrite Hgt. destruct ok; reflexivity.
+          -- intros x [<-|Hx]; [congruence|apply Hdef; exact Hx].
+        * destruct IH as (Q2 & (x & Hx & Hn) & Ho). split; [eapply quiet_trans; eassumption|].
+          split; [exists x; split; [right; exact Hx|exact Hn]|exact Ho].
+      + destruct Hg as (Q1 & Hn & ->). split; [exact Q1|].
+        split; [exists it; split; [left; reflexivity|exact Hn]|eexists; reflexivity].
+  Qed.
+
+  Lemma c7_gval i1 i2 exposed it :
+    IRe i1 i2 -> gval eval2 sc2 i2 exposed (imap pi it) = gval eval1 sc1 i1 exposed it.
+  Proof.
+    intros HI. unfold gval, imap. cbn [fst snd]. destruct (t_guard (snd it)) as [g|]; [|reflexivity].
+    change (OTrans (pi (fst it))) with (omap pi (OTrans (fst it))).
+    rewrite (c7_mk_call i1 i2 CGuard (OTrans (fst it)) 0 (Some g) exposed HI), (ir_ctx _ _ HI), Heval.
+    reflexivity.
+  Qed.
+
+  Lemma SR_quiet s1 s2 s1' s2' : SR RtB s1 s2 -> quiet s1 s1' -> quiet s2 s2' -> SR RtB s1' s2'.
+  Proof.
+    intros (HI & Hx & Ht) (A1 & B1 & C1) (A2 & B2 & C2). unfold SR. rewrite A1, A2, B1, B2.
+    split; [exact HI|]. split; [exact Hx|]. unfold RtB in *. rewrite C1, C2. exact Ht.
+  Qed.
+
+  Lemma sim_eval_guards_B exposed l1 l2 :
+    PM l1 l2 ->
+    sim RtB ERB (fun r1 r2 => PM r1 r2 /\ incl r1 l1)
+        (eval_guards ctx X eval1 sc1 exposed l1) (eval_guards ctx X eval2 sc2 exposed l2).
+  Proof.
+    intros HP s1 s2 HS.
+    pose proof (eval_guards_pure eval1 sc1 exposed l1 s1) as H1.
+    pose proof (eval_guards_pure eval2 sc2 exposed l2 s2) as H2. unfold orel.
+    assert (HG : forall it, gval eval2 sc2 (m_i s2) exposed (imap pi it)
+                            = gval eval1 sc1 (m_i s1) exposed it).
+    { intros it. apply c7_gval. apply HS. }
+    destruct (eval_guards ctx X eval1 sc1 exposed l1 s1) as [s1' [r1|e1]],
+             (eval_guards ctx X eval2 sc2 exposed l2 s2) as [s2' [r2|e2]].
+    - destruct H1 as (Q1 & -> & _). destruct H2 as (Q2 & -> & _).
+      split; [eapply SR_quiet; eassumption|]. split.
+      + apply PM_filter; [|exact HP]. intros x. unfold gtrue. rewrite HG. reflexivity.
+      + intros x Hx. apply filter_In in Hx. apply Hx.
+    - exfalso. destruct H1 as (_ & _ & Hdef). destruct H2 as (_ & (y & Hy & Hn) & _).
+      destruct (PM_in2 _ _ _ HP Hy) as (x & Hx & ->). rewrite HG in Hn. exact (Hdef x Hx Hn).
+    - exfalso. destruct H2 as (_ & _ & Hdef). destruct H1 as (_ & (x & Hx & Hn) & _).
+      apply (Hdef (imap pi x)); [eapply PM_in1; eassumption|]. rewrite HG. exact Hn.
+    - destruct H1 as (Q1 & _ & (o1 & ->)). destruct H2 as (Q2 & _ & (o2 & ->)).
+      split; [|right; exists o1, o2; split; reflexivity].
+      eapply SR_SRe. eapply SR_quiet; eassumption.
+  Qed.
+
+  Lemma sim_sort_B ts1 ts2 :
+    BP ts1 ts2 ->
+    sim RtB ERB (fun r1 r2 => r2 = map (imap pi) r1)
+        (sort_transitions ctx X sc1 ts1) (sort_transitions ctx X sc2 ts2).
+  Proof.
+    intros HB. destruct (check_pairs sc1 ts1) as [e|] eqn:E.
+    - intros s1 s2 HS. rewrite !sort_transitions_pure. unfold orel.
+      pose proof (C07_error_kind ts1 ts2 HB) as E2. rewrite E in E2.
+      pose proof (BP_length _ _ HB) as HL.
+      destruct ts1 as [|a [|b l]]; [discriminate E|discriminate E|].
+      destruct ts2 as [|a2 [|b2 l2]]; try discriminate HL. rewrite E, E2.
+      split; [eapply SR_SRe; exact HS|]. left. symmetry. eapply c7_check_pairs_err; exact E.
+    - rewrite (BP_none sc1 ts1 ts2 HB E). apply sim_sort_map. exact ERB_map.
+  Qed.
+
+  Lemma sim_select_B ev cfg1 cfg2 :
+    Permutation cfg1 cfg2 ->
+    sim RtB ERB BP (select_transitions ctx X eval1 sc1 ev cfg1) (select_transitions ctx X eval2 sc2 ev cfg2).
+  Proof.
+    intros HP. apply (sim_select RtB ERB PM BP); try assumption.
+    - apply Permutation_refl.
+    - apply PM_filter.
+    - apply PM_in1.
+    - apply PM_in2.
+    - apply sim_eval_guards_B.
+    - apply BP_nil.
+    - apply BP_app.
+    - apply BP_nil_iff.
+    - apply c7_itransitions_PM.
+  Qed.
+
+  (* the selected transitions correspond one to one through the bijection *)
+  Lemma BP_perm ts1 ts2 : BP ts1 ts2 -> PM ts1 ts2.
+  Proof.
+    intros H. induction H as [|b1 b2 q1 q2 Hb Hu H IH]; [apply Permutation_refl|].
+    unfold PM in *. rewrite map_app. apply Permutation_app; assumption.
+  Qed.
+
+  Lemma BP_same_set ts1 ts2 : BP ts1 ts2 -> forall it, In (imap pi it) ts2 <-> In it ts1.
+  Proof.
+    intros H it. apply BP_perm in H. split.
+    - intros Hin. apply (Permutation_in _ (Permutation_sym H)) in Hin. apply in_map_iff in Hin.
+      destruct Hin as ([i t] & E & Hx). destruct it as [j u]. unfold imap in E. cbn [fst snd] in E.
+      inversion E. subst u. apply Hinj in H1. subst i. exact Hx.
+    - intros Hin. eapply PM_in1; eassumption.
+  Qed.
+
+  Hypothesis HkregB : (forall n, children_for sc2 n = children_for sc1 n)
+                      \/ (forall p c, In c (children_for sc1 p) -> state_for sc1 c <> None).
+
+  Theorem sim_execute_once_B fuel now :
+    sim RtB ERB (fun a b => b = macmap pi a)
+        (execute_once ctx X exec1 eval1 emit sc1 fuel now)
+        (execute_once ctx X exec2 eval2 emit sc2 fuel now).
+  Proof.
+    apply (sim_execute_once RtB ERB ERB_map RtB_exec RtB_eval RtB_meta HkregB BP).
+    - apply BP_nil_iff.
+    - intros ev cfg1 cfg2 HP.
+      apply (sim_sel_obs RtB ERB PM BP); try assumption.
+      + apply Permutation_refl.
+      + apply PM_filter.
+      + apply PM_in1.
+      + apply PM_in2.
+      + apply sim_eval_guards_B.
+      + apply BP_nil.
+      + apply BP_app.
+      + apply BP_nil_iff.
+      + intros ts1 ts2 t1 t2 _ Ht. apply RtB_drop1; [reflexivity|]. apply RtB_drop2; [reflexivity|exact Ht].
+      + apply c7_itransitions_PM.
+    - apply sim_sort_B.
+  Qed.
 End Charts.
 
 (* ================================================================== Part 3: the identity renaming *)
@@ -2027,5 +2415,873 @@ Proof.
   intros ctx X exec eval emit sc. apply C07_decl_children; [apply struct_equiv_refl|reflexivity].
 Qed.
 
-Print Assumptions C07_decl_children.
+
+(* ================================================================== Part 4: the full theorem *)
+(* sc2 declares the states/children/transitions of sc1 in another order; pi maps the index of a
+   transition in sc1 to its index in sc2 *)
+Record chart_perm (sc1 sc2 : chart) (pi : nat -> nat) : Prop := mkCP {
+  cp_struct : struct_equiv sc1 sc2;
+  cp_tr : forall i, nth_error (c_transitions sc2) (pi i) = nth_error (c_transitions sc1) i;
+  cp_inj : forall i j, pi i = pi j -> i = j;
+  cp_len : length (c_transitions sc2) = length (c_transitions sc1)
+}.
+
+(* the two runs are in corresponding states: interpreter states equal up to set order and the
+   renaming of transition indices (IR), same listener state, same observation trace once the
+   guard evaluations and the model-only ObSelected entries are removed (RtB) *)
+Definition run_equiv (pi : nat -> nat) {ctx X} (s1 s2 : mstate ctx X) : Prop :=
+  SR pi ctx X (RtB pi ctx) s1 s2.
+Definition run_equiv_err (pi : nat -> nat) {ctx X} (s1 s2 : mstate ctx X) : Prop :=
+  SRe pi ctx X (RtB pi ctx) s1 s2.
+
+(* both succeed with the same macro step (transition indices renamed) or both fail with the same
+   error (renamed), resp. with a guard evaluation error *)
+Definition decl_outcome (pi : nat -> nat) {ctx X}
+           (o1 o2 : mstate ctx X * (option macrostep + err)) : Prop :=
+  match o1, o2 with
+  | (s1, inl m1), (s2, inl m2) => run_equiv pi s1 s2 /\ m2 = macmap pi m1
+  | (s1, inr e1), (s2, inr e2) => run_equiv_err pi s1 s2 /\ ERB pi e1 e2
+  | _, _ => False
+  end.
+
+Theorem C07_decl_order :
+  forall (ctx X : Type) (exec : call ctx -> ctx -> option (ctx * list event))
+         (eval : call ctx -> ctx -> option bool) (emit : Z -> meta -> X -> X * option err)
+         (sc1 sc2 : chart) (pi : nat -> nat),
+    chart_perm sc1 sc2 pi ->
+    (forall c x, exec (cmap pi c) x = exec c x) ->
+    (forall c x, eval (cmap pi c) x = eval c x) ->
+    (forall t m x e, snd (emit t m x) = Some e -> emap pi e = e) ->
+    forall fuel now (s1 s2 : mstate ctx X),
+      run_equiv pi s1 s2 ->
+      decl_outcome pi (execute_once ctx X exec eval emit sc1 fuel now s1)
+                      (execute_once ctx X exec eval emit sc2 fuel now s2).
+Proof.
+  intros ctx X exec eval emit sc1 sc2 pi [[H1 H2 H3 H4 H5 H6 H7] Htr Hinj Hlen] Hexec Heval Hemit
+         fuel now s1 s2 HS.
+  pose proof (sim_execute_once_B sc1 sc2 pi H1 H2 H3 H4 H5 H6 Htr Hinj Hlen ctx X exec exec eval eval
+                emit Hexec Heval Hemit H7 fuel now s1 s2 HS) as Hsim.
+  unfold orel in Hsim. unfold decl_outcome.
+  destruct (execute_once ctx X exec eval emit sc1 fuel now s1) as [s1' [a|e1]],
+           (execute_once ctx X exec eval emit sc2 fuel now s2) as [s2' [b|e2]]; exact Hsim.
+Qed.
+
+(* a freshly created interpreter is related to itself *)
+Lemma run_equiv_init pi ctx X id now ignore (c0 : ctx) (x : X) :
+  run_equiv pi (mkM (init_istate id now ignore c0) x []) (mkM (init_istate id now ignore c0) x []).
+Proof.
+  split; [|split; reflexivity]. split; [constructor; cbn; auto|]. cbn. intros k. exact I.
+Qed.
+
+(* ---- the concrete notion: permuted dictionaries / lists ---- *)
+Definition children_perm (d1 d2 : list (option name * list name)) : Prop :=
+  exists mid, Permutation d1 mid /\
+              Forall2 (fun a b => fst a = fst b /\ Permutation (snd a) (snd b)) mid d2.
+
+Record perm_chart (sc1 sc2 : chart) : Prop := mkPC {
+  pc_states : Permutation (c_states sc1) (c_states sc2);
+  pc_parent : Permutation (c_parent sc1) (c_parent sc2);
+  pc_children : children_perm (c_children sc1) (c_children sc2);
+  pc_trans : Permutation (c_transitions sc1) (c_transitions sc2)
+}.
+
+Lemma c7_lookup_In {V} (d : list (name * V)) k v :
+  NoDup (map fst d) -> (lookup k d = Some v <-> In (k, v) d).
+Proof.
+  induction d as [|[k' v'] d IH]; intros Hnd; simpl.
+  - split; [discriminate|intros []].
+  - inversion Hnd as [|x l Hnin Hnd']; subst. destruct (str_eqb k k') eqn:E.
+    + apply str_eqb_spec in E. subst k'. split.
+      * intros H; inversion H; subst. left; reflexivity.
+      * intros [H|H]; [inversion H; reflexivity|].
+        exfalso. apply Hnin. change k with (fst (k, v)). apply in_map. exact H.
+    + rewrite (IH Hnd'). split; [intros H; right; exact H|].
+      intros [H|H]; [|exact H]. inversion H; subst.
+      unfold str_eqb in E. rewrite String.eqb_refl in E. discriminate.
+Qed.
+
+Lemma c7_lookup_perm {V} (d d' : list (name * V)) k :
+  NoDup (map fst d) -> Permutation d d' -> lookup k d' = lookup k d.
+Proof.
+  intros Hnd HP.
+  assert (Hnd' : NoDup (map fst d')).
+  { eapply Permutation_NoDup; [apply Permutation_map; exact HP|exact Hnd]. }
+  destruct (lookup k d) as [v|] eqn:E.
+  - apply (c7_lookup_In d' k v Hnd'). eapply Permutation_in; [exact HP|].
+    apply (c7_lookup_In d k v Hnd). exact E.
+  - destruct (lookup k d') as [v'|] eqn:E'; [|reflexivity].
+    apply (c7_lookup_In d' k v' Hnd') in E'.
+    apply (Permutation_in _ (Permutation_sym HP)) in E'.
+    apply (c7_lookup_In d k v' Hnd) in E'. congruence.
+Qed.
+
+Lemma c7_ostr_eqb_spec a b : opt_eqb str_eqb a b = true <-> a = b.
+Proof.
+  destruct a as [a|], b as [b|]; simpl; try (split; [discriminate|discriminate]); try tauto.
+  rewrite str_eqb_spec. split; [intros ->; reflexivity|intros H; inversion H; reflexivity].
+Qed.
+
+Lemma c7_olookup_In {V} (d : list (option name * V)) k v :
+  NoDup (map fst d) -> (olookup k d = Some v <-> In (k, v) d).
+Proof.
+  induction d as [|[k' v'] d IH]; intros Hnd; simpl.
+  - split; [discriminate|intros []].
+  - inversion Hnd as [|x l Hnin Hnd']; subst. destruct (opt_eqb str_eqb k k') eqn:E.
+    + apply c7_ostr_eqb_spec in E. subst k'. split.
+      * intros H; inversion H; subst. left; reflexivity.
+      * intros [H|H]; [inversion H; reflexivity|].
+        exfalso. apply Hnin. change k with (fst (k, v)). apply in_map. exact H.
+    + rewrite (IH Hnd'). split; [intros H; right; exact H|].
+      intros [H|H]; [|exact H]. inversion H; subst.
+      assert (opt_eqb str_eqb k k = true) by (apply c7_ostr_eqb_spec; reflexivity). congruence.
+Qed.
+
+Lemma c7_olookup_perm {V} (d d' : list (option name * V)) k :
+  NoDup (map fst d) -> Permutation d d' -> olookup k d' = olookup k d.
+Proof.
+  intros Hnd HP.
+  assert (Hnd' : NoDup (map fst d')).
+  { eapply Permutation_NoDup; [apply Permutation_map; exact HP|exact Hnd]. }
+  destruct (olookup k d) as [v|] eqn:E.
+  - apply (c7_olookup_In d' k v Hnd'). eapply Permutation_in; [exact HP|].
+    apply (c7_olookup_In d k v Hnd). exact E.
+  - destruct (olookup k d') as [v'|] eqn:E'; [|reflexivity].
+    apply (c7_olookup_In d' k v' Hnd') in E'.
+    apply (Permutation_in _ (Permutation_sym HP)) in E'.
+    apply (c7_olookup_In d k v' Hnd) in E'. congruence.
+Qed.
+
+Lemma c7_olookup_F2 (d d' : list (option name * list name)) k :
+  Forall2 (fun a b => fst a = fst b /\ Permutation (snd a) (snd b)) d d' ->
+  match olookup k d, olookup k d' with
+  | Some l, Some l' => Permutation l l'
+  | None, None => True
+  | _, _ => False
+  end.
+Proof.
+  intros H. induction H as [|[k1 l1] [k2 l2] d d' [Hk Hl] H IH]; simpl; [exact I|].
+  cbn [fst snd] in *. subst k2. destruct (opt_eqb str_eqb k k1); [exact Hl|exact IH].
+Qed.
+
+Lemma c7_root_of_In d r : root_of d = Some r -> In (r, None) d.
+Proof.
+  induction d as [|[n [p|]] d IH]; simpl; [discriminate| |].
+  - intros H. right. apply IH; exact H.
+  - intros H. inversion H; subst. left; reflexivity.
+Qed.
+
+Lemma c7_root_of_none d : root_of d = None -> forall n, ~ In (n, None) d.
+Proof.
+  induction d as [|[m [p|]] d IH]; simpl; [intros _ n []| |discriminate].
+  intros H n [Hn|Hn]; [discriminate|]. exact (IH H n Hn).
+Qed.
+
+Lemma c7_root_perm d d' :
+  (forall n m, In (n, None) d -> In (m, None) d -> n = m) ->
+  Permutation d d' -> root_of d' = root_of d.
+Proof.
+  intros Huniq HP. destruct (root_of d) as [r|] eqn:E.
+  - apply c7_root_of_In in E. destruct (root_of d') as [r'|] eqn:E'.
+    + apply c7_root_of_In in E'. apply (Permutation_in _ (Permutation_sym HP)) in E'.
+      f_equal. apply Huniq; assumption.
+    + exfalso. apply (c7_root_of_none _ E' r). eapply Permutation_in; [exact HP|exact E].
+  - destruct (root_of d') as [r'|] eqn:E'; [|reflexivity]. exfalso.
+    apply c7_root_of_In in E'. apply (Permutation_in _ (Permutation_sym HP)) in E'.
+    exact (c7_root_of_none _ E r' E').
+Qed.
+
+(* tree consistency of the descendants computation (decided by desc_okb below on concrete charts) *)
+Definition desc_ok (sc : chart) : Prop :=
+  forall a, NoDup (descendants_for sc a)
+            /\ forall d, In d (descendants_for sc a) <-> In a (ancestors_for sc d).
+
+(* well-formedness used to pass from permuted dictionaries to equal lookups *)
+Record decl_wf (sc : chart) : Prop := mkDW {
+  dw_states : NoDup (map fst (c_states sc));
+  dw_parent : NoDup (map fst (c_parent sc));
+  dw_children : NoDup (map fst (c_children sc));
+  dw_root : forall n m, In (n, None) (c_parent sc) -> In (m, None) (c_parent sc) -> n = m;
+  dw_kreg : forall p c, In c (children_for sc p) -> state_for sc c <> None
+}.
+
+Theorem perm_chart_struct sc1 sc2 :
+  perm_chart sc1 sc2 -> decl_wf sc1 -> desc_ok sc1 -> desc_ok sc2 -> struct_equiv sc1 sc2.
+Proof.
+  intros [Ps Pp (mid & Pc1 & Pc2) Pt] [Ws Wp Wc Wr Wk] D1 D2.
+  assert (Hst : forall n, state_for sc2 n = state_for sc1 n).
+  { intros n. unfold state_for. apply c7_lookup_perm; assumption. }
+  assert (Hpar : forall n, parent_for sc2 n = parent_for sc1 n).
+  { intros n. unfold parent_for. rewrite (c7_lookup_perm _ _ n Wp Pp). reflexivity. }
+  assert (Hplen : length (c_parent sc2) = length (c_parent sc1)).
+  { symmetry. apply Permutation_length. exact Pp. }
+  assert (Hkids : forall n, Permutation (children_for sc1 n) (children_for sc2 n)).
+  { intros n. unfold children_for. rewrite <- (c7_olookup_perm _ _ (Some n) Wc Pc1).
+    pose proof (c7_olookup_F2 mid (c_children sc2) (Some n) Pc2) as H.
+    destruct (olookup (Some n) mid), (olookup (Some n) (c_children sc2)); try contradiction;
+      [exact H|apply Permutation_refl]. }
+  constructor; try assumption.
+  - intros n. destruct (D1 n) as [N1 I1]. destruct (D2 n) as [N2 I2].
+    apply NoDup_Permutation; [exact N1|exact N2|]. intros d. rewrite I1, I2.
+    rewrite (c7_anc sc1 sc2 Hpar Hplen). reflexivity.
+  - unfold root. apply c7_root_perm; assumption.
+  - right. exact Wk.
+Qed.
+
+Theorem perm_chart_sim sc1 sc2 :
+  perm_chart sc1 sc2 -> decl_wf sc1 -> desc_ok sc1 -> desc_ok sc2 ->
+  exists pi, chart_perm sc1 sc2 pi.
+Proof.
+  intros HP W D1 D2. pose proof (perm_chart_struct sc1 sc2 HP W D1 D2) as HSE.
+  destruct HP as [_ _ _ Pt].
+  apply Permutation_sym in Pt. apply Permutation_nth_error in Pt.
+  destruct Pt as (Hlen & f & Hinj & Hf). exists f. constructor.
+  - exact HSE.
+  - intros i. symmetry. apply Hf.
+  - exact Hinj.
+  - exact Hlen.
+Qed.
+
+(* Goal 4 in its concrete form *)
+Theorem C07_decl_order_perm :
+  forall (ctx X : Type) (exec : call ctx -> ctx -> option (ctx * list event))
+         (eval : call ctx -> ctx -> option bool) (emit : Z -> meta -> X -> X * option err)
+         (sc1 sc2 : chart),
+    perm_chart sc1 sc2 -> decl_wf sc1 -> desc_ok sc1 -> desc_ok sc2 ->
+    (forall pi c x, exec (cmap pi c) x = exec c x) ->
+    (forall pi c x, eval (cmap pi c) x = eval c x) ->
+    (forall pi t m x e, snd (emit t m x) = Some e -> emap pi e = e) ->
+    exists pi,
+      chart_perm sc1 sc2 pi /\
+      forall fuel now (s1 s2 : mstate ctx X),
+        run_equiv pi s1 s2 ->
+        decl_outcome pi (execute_once ctx X exec eval emit sc1 fuel now s1)
+                        (execute_once ctx X exec eval emit sc2 fuel now s2).
+Proof.
+  intros ctx X exec eval emit sc1 sc2 HP W D1 D2 Hexec Heval Hemit.
+  destruct (perm_chart_sim sc1 sc2 HP W D1 D2) as [pi Hpi]. exists pi. split; [exact Hpi|].
+  intros fuel now s1 s2 HS.
+  apply (C07_decl_order ctx X exec eval emit sc1 sc2 pi Hpi (Hexec pi) (Heval pi) (Hemit pi)).
+  exact HS.
+Qed.
+
+
+(* ================================================================== Part 5: checkers, reversal, example *)
+(* ---- deciding desc_ok and decl_wf on a concrete chart ---- *)
+Fixpoint c7_nodupb (l : list name) : bool :=
+  match l with [] => true | x :: r => negb (mem x r) && c7_nodupb r end.
+
+Lemma c7_nodupb_sound l : c7_nodupb l = true -> NoDup l.
+Proof.
+  induction l as [|x l IH]; simpl; [constructor|]. rewrite andb_true_iff, negb_true_iff.
+  intros [H1 H2]. constructor; [apply mem_false_iff; exact H1|apply IH; exact H2].
+Qed.
+
+Definition okeys {V} (d : list (option name * V)) : list name :=
+  flat_map (fun p => match fst p with Some n => [n] | None => [] end) d.
+
+Lemma c7_olookup_none {V} (d : list (option name * V)) a :
+  ~ In a (okeys d) -> olookup (Some a) d = None.
+Proof.
+  induction d as [|[[k|] v] d IH]; simpl; intros H; [reflexivity| |].
+  - destruct (str_eqb a k) eqn:E.
+    + apply str_eqb_spec in E. subst. exfalso. apply H. left; reflexivity.
+    + apply IH. intros Hin. apply H. right; exact Hin.
+  - apply IH. exact H.
+Qed.
+
+Lemma c7_desc_nil sc a : children_for sc a = [] -> descendants_for sc a = [].
+Proof.
+  intros H. unfold descendants_for. cbn [bfs]. rewrite H. cbn [app].
+  destruct (length (c_states sc)); reflexivity.
+Qed.
+
+Definition desc_okb (sc : chart) : bool :=
+  forallb (fun a => c7_nodupb (descendants_for sc a)
+                    && forallb (fun d => mem a (ancestors_for sc d)) (descendants_for sc a))
+          (okeys (c_children sc))
+  && forallb (fun d => forallb (fun a => mem d (descendants_for sc a)) (ancestors_for sc d))
+             (map fst (c_parent sc)).
+
+Lemma c7_lookup_keys {V} (k : name) (d : list (name * V)) v : lookup k d = Some v -> In k (map fst d).
+Proof.
+  induction d as [|[k' v'] d IH]; simpl; [discriminate|]. destruct (str_eqb k k') eqn:E.
+  - apply str_eqb_spec in E. intros _. left; symmetry; exact E.
+  - intros H. right. apply IH; exact H.
+Qed.
+
+Lemma desc_okb_sound sc : desc_okb sc = true -> desc_ok sc.
+Proof.
+  unfold desc_okb. rewrite andb_true_iff, !forallb_forall. intros [H1 H2] a.
+  destruct (in_dec string_dec a (okeys (c_children sc))) as [Hin|Hnin].
+  - specialize (H1 a Hin). rewrite andb_true_iff, forallb_forall in H1. destruct H1 as [N F].
+    split; [apply c7_nodupb_sound; exact N|]. intros d. split.
+    + intros Hd. apply mem_In. apply F; exact Hd.
+    + intros Ha. destruct (lookup d (c_parent sc)) as [p|] eqn:El.
+      * apply c7_lookup_keys in El. specialize (H2 d El). rewrite forallb_forall in H2.
+        apply mem_In. apply H2; exact Ha.
+      * exfalso. unfold ancestors_for, parent_for in Ha. rewrite El in Ha.
+        destruct (length (c_parent sc)); destruct Ha.
+  - assert (E : descendants_for sc a = []).
+    { apply c7_desc_nil. unfold children_for. rewrite (c7_olookup_none _ a Hnin). reflexivity. }
+    rewrite E. split; [constructor|]. intros d. split; [intros []|].
+    intros Ha. destruct (lookup d (c_parent sc)) as [p|] eqn:El.
+    + apply c7_lookup_keys in El. specialize (H2 d El). rewrite forallb_forall in H2.
+      specialize (H2 a Ha). rewrite E in H2. discriminate.
+    + exfalso. unfold ancestors_for, parent_for in Ha. rewrite El in Ha.
+      destruct (length (c_parent sc)); destruct Ha.
+Qed.
+
+Definition kreg_okb (sc : chart) : bool :=
+  forallb (fun p => forallb (fun c => match state_for sc c with Some _ => true | None => false end)
+                            (snd p)) (c_children sc).
+
+Lemma c7_olookup_some_In {V} (d : list (option name * V)) k v : olookup k d = Some v -> In (k, v) d.
+Proof.
+  induction d as [|[k' v'] d IH]; simpl; [discriminate|]. destruct (opt_eqb str_eqb k k') eqn:E.
+  - apply c7_ostr_eqb_spec in E. intros H; inversion H; subst. left; reflexivity.
+  - intros H. right. apply IH; exact H.
+Qed.
+
+Lemma kreg_okb_sound sc :
+  kreg_okb sc = true -> forall p c, In c (children_for sc p) -> state_for sc c <> None.
+Proof.
+  unfold kreg_okb. rewrite forallb_forall. intros H p c Hc. unfold children_for in Hc.
+  destruct (olookup (Some p) (c_children sc)) as [l|] eqn:E; [|destruct Hc].
+  apply c7_olookup_some_In in E. specialize (H _ E). cbn [snd] in H. rewrite forallb_forall in H.
+  specialize (H c Hc). destruct (state_for sc c); [discriminate|discriminate].
+Qed.
+
+(* ---- reversing every declaration order is an instance of perm_chart, for every chart ---- *)
+Definition rev_chart (sc : chart) : chart :=
+  mkChart (c_name sc) (c_description sc) (c_preamble sc)
+          (rev (c_states sc)) (rev (c_parent sc))
+          (rev (map (fun p => (fst p, rev (snd p))) (c_children sc)))
+          (rev (c_transitions sc)).
+
+Theorem perm_chart_rev sc : perm_chart sc (rev_chart sc).
+Proof.
+  constructor; cbn [rev_chart c_states c_parent c_children c_transitions]; try apply Permutation_rev.
+  exists (rev (c_children sc)). split; [apply Permutation_rev|].
+  rewrite <- map_rev. induction (rev (c_children sc)) as [|[k l] d IH]; simpl; constructor; [|exact IH].
+  cbn [fst snd]. split; [reflexivity|apply Permutation_rev].
+Qed.
+
+(* ---- a concrete chart: root > P (orthogonal) > { A > {a1, a2, hA (shallow history)}, B > {b1, b2} } ---- *)
+Definition c07_chart : chart :=
+  let mk n k i m := (n, mkState n k i m (Some (String.append "enter " n)) (Some (String.append "exit " n)) [] [] []) in
+  mkChart "c07" None None
+    [mk "root" KCompound (Some "P") None; mk "P" KOrthogonal None None;
+     mk "A" KCompound (Some "a1") None; mk "B" KCompound (Some "b1") None;
+     mk "a1" KBasic None None; mk "a2" KBasic None None; mk "hA" KShallow None (Some "a1");
+     mk "b1" KBasic None None; mk "b2" KBasic None None]
+    [("root", None); ("P", Some "root"); ("A", Some "P"); ("B", Some "P"); ("a1", Some "A");
+     ("a2", Some "A"); ("hA", Some "A"); ("b1", Some "B"); ("b2", Some "B")]
+    [(None, ["root"]); (Some "root", ["P"]); (Some "P", ["A"; "B"]); (Some "A", ["a1"; "a2"; "hA"]);
+     (Some "B", ["b1"; "b2"])]
+    [mkTrans "a1" (Some "a2") (Some "go") None (Some "x = 1") 0 [] [] [];
+     mkTrans "b1" (Some "b2") (Some "go") None None 0 [] [] [];
+     mkTrans "a2" (Some "a1") (Some "go") (Some "g") None 0 ["pre"] [] [];
+     mkTrans "P" (Some "P") (Some "reset") None None 0 [] [] []].
+
+Definition c07_chart' : chart := rev_chart c07_chart.
+
+(* index of a transition of c07_chart in c07_chart' *)
+Definition c07_pi (i : nat) : nat := if Nat.ltb i 4 then (3 - i)%nat else i.
+
+Example c07_desc_ok : desc_ok c07_chart /\ desc_ok c07_chart'.
+Proof. split; apply desc_okb_sound; vm_compute; reflexivity. Qed.
+
+Example c07_decl_wf : decl_wf c07_chart.
+Proof.
+  constructor.
+  - apply c7_nodupb_sound. vm_compute. reflexivity.
+  - apply c7_nodupb_sound. vm_compute. reflexivity.
+  - cbn. repeat (constructor; [simpl; intuition congruence|]). constructor.
+  - cbn. intros n m Hn Hm.
+    repeat (destruct Hn as [Hn|Hn]; [try discriminate Hn|]); try contradiction.
+    repeat (destruct Hm as [Hm|Hm]; [try discriminate Hm|]); try contradiction.
+    congruence.
+  - apply kreg_okb_sound. vm_compute. reflexivity.
+Qed.
+
+Example c07_chart_perm : chart_perm c07_chart c07_chart' c07_pi.
+Proof.
+  constructor.
+  - apply perm_chart_struct; [apply perm_chart_rev|apply c07_decl_wf|apply c07_desc_ok|apply c07_desc_ok].
+  - intros i. do 4 (destruct i as [|i]; [reflexivity|]). destruct i; reflexivity.
+  - intros i j. unfold c07_pi. destruct (Nat.ltb_spec i 4), (Nat.ltb_spec j 4); intros; lia.
+  - reflexivity.
+Qed.
+
+(* a deterministic evaluator that does not look at the owner of the code: guards hold, actions
+   send nothing; the listener records the meta events *)
+Definition c07_exec (c : call unit) (x : unit) : option (unit * list event) := Some (x, []).
+Definition c07_eval (c : call unit) (x : unit) : option bool := Some true.
+Definition c07_emit (t : Z) (m : meta) (x : list meta) : list meta * option err := (m :: x, None).
+
+Definition c07_init : mstate unit (list meta) := mkM (init_istate 0 0 false tt) [] [].
+
+(* initial step; "go" (two transitions in the orthogonal regions); "go" again; "reset" *)
+Definition c07_run (sc : chart) :=
+  let step s := execute_once unit (list meta) c07_exec c07_eval c07_emit sc 50 0 s in
+  let q e s := fst (queue unit (list meta) (mkEvent External e []) s) in
+  let '(s1, r1) := step c07_init in
+  let '(s2, r2) := step (q "go" s1) in
+  let '(s3, r3) := step (q "go" s2) in
+  let '(s4, r4) := step (q "reset" s3) in
+  ([r1; r2; r3; r4], sort_names (i_config (m_i s4)), m_x s4, i_memory (m_i s4)).
+
+Definition c07_map_result (r : option macrostep + err) : option macrostep + err :=
+  match r with inl m => inl (macmap c07_pi m) | inr e => inr (emap c07_pi e) end.
+
+(* the two declaration orders produce the same macro steps (transition indices renamed), the same
+   final configuration, the same sequence of meta events and the same history memory *)
+Example c07_same_runs :
+  let '(rs, cfg, metas, memo) := c07_run c07_chart in
+  c07_run c07_chart' = (map c07_map_result rs, cfg, metas, memo).
+Proof. vm_compute. reflexivity. Qed.
+
+(* the run is not trivial: the second macro step fires two transitions, the fourth exits and
+   re-enters the orthogonal state (recording the shallow history of A) *)
+Example c07_run_shape :
+  let '(rs, cfg, metas, memo) := c07_run c07_chart in
+  map (fun r => match r with
+                | inl (Some (_, steps)) => map ms_trans steps
+                | _ => []
+                end) rs
+  = [[None; None; None; None; None]; [Some 0; Some 1]; [Some 2]; [Some 3; None; None; None]]
+  /\ cfg = ["A"; "B"; "P"; "a1"; "b1"; "root"]
+  /\ memo = [("hA", ["a1"])].
+Proof. vm_compute. repeat split. Qed.
+
+(* the declaration orders really differ: children of P and the transitions are swapped *)
+Example c07_orders_differ :
+  children_for c07_chart "P" = ["A"; "B"] /\ children_for c07_chart' "P" = ["B"; "A"]
+  /\ map t_source (c_transitions c07_chart) = ["a1"; "b1"; "a2"; "P"]
+  /\ map t_source (c_transitions c07_chart') = ["P"; "a2"; "b1"; "a1"].
+Proof. vm_compute. repeat split. Qed.
+
+(* the hypotheses of C07_decl_order are satisfied by this instance *)
+Example c07_decl_order_instance :
+  forall fuel now,
+    decl_outcome c07_pi
+      (execute_once unit (list meta) c07_exec c07_eval c07_emit c07_chart fuel now c07_init)
+      (execute_once unit (list meta) c07_exec c07_eval c07_emit c07_chart' fuel now c07_init).
+Proof.
+  intros fuel now. apply C07_decl_order.
+  - apply c07_chart_perm.
+  - reflexivity.
+  - reflexivity.
+  - intros t m x e H. discriminate H.
+  - apply run_equiv_init.
+Qed.
+
+(* hash seed: the same chart, the configuration set enumerated in two orders *)
+Definition c07_state (cfg : list name) : mstate unit (list meta) :=
+  mkM (mkIState 0 true 0 [] cfg [] [] [] [] [(0%Z, mkEvent External "go" [])] false tt []) [] [].
+
+Example c07_hashseed_instance :
+  ms_equiv (c07_state ["root"; "P"; "A"; "B"; "a1"; "b1"]) (c07_state ["b1"; "a1"; "B"; "root"; "A"; "P"]).
+Proof.
+  split; [|split; reflexivity].
+  exists ["b1"; "a1"; "B"; "root"; "A"; "P"], []. split; [|split; [apply c7_mem_rel_refl|reflexivity]].
+  cbn [c07_state m_i i_config].
+  apply (Permutation_cons_app ["b1"; "a1"; "B"] ["A"; "P"] "root").
+  apply (Permutation_cons_app ["b1"; "a1"; "B"; "A"] [] "P").
+  apply (Permutation_cons_app ["b1"; "a1"; "B"] [] "A").
+  apply (Permutation_cons_app ["b1"; "a1"] [] "B").
+  apply (Permutation_cons_app ["b1"] [] "a1"). apply Permutation_refl.
+Qed.
+
+Example c07_hashseed_run :
+  snd (execute_once unit (list meta) c07_exec c07_eval c07_emit c07_chart 50 0
+         (c07_state ["root"; "P"; "A"; "B"; "a1"; "b1"]))
+  = snd (execute_once unit (list meta) c07_exec c07_eval c07_emit c07_chart 50 0
+         (c07_state ["b1"; "a1"; "B"; "root"; "A"; "P"])).
+Proof. vm_compute. reflexivity. Qed.
+
+
+(* ================================================================== Part 6: named corollaries *)
+(* ---- from a simulation with the identity renaming to the readable statement ---- *)
+Lemma same_outcome_of_sim {ctx X A} (m1 m2 : M ctx X A) :
+  sim idx_id ctx X (fun t1 t2 => t2 = t1) (fun e1 e2 => e2 = e1) eq m1 m2 ->
+  forall s1 s2, ms_equiv s1 s2 -> same_outcome (m1 s1) (m2 s2).
+Proof.
+  intros Hsim s1 s2 (HI & Hx & Ht).
+  assert (HS : SR idx_id ctx X (fun t1 t2 => t2 = t1) s1 s2).
+  { split; [apply hs_equiv_IR; exact HI|]. split; assumption. }
+  specialize (Hsim s1 s2 HS). unfold orel in Hsim. unfold same_outcome.
+  destruct (m1 s1) as [s1' [a|e1]], (m2 s2) as [s2' [b|e2]]; try contradiction; cbn [fst snd].
+  - destruct Hsim as [(HI' & Hx' & Ht') ->]. split; [reflexivity|].
+    split; [apply hs_equiv_IR; exact HI'|]. split; assumption.
+  - destruct Hsim as [(HI' & Hx' & Ht') ->]. split; [reflexivity|].
+    split; [apply hs_equiv_err_IRe; exact HI'|]. split; assumption.
+Qed.
+
+Ltac c7_id_side :=
+  first [ assumption
+        | solve [intros; apply emap_id]
+        | solve [intros; rewrite ?cmap_id; reflexivity]
+        | solve [intros; subst; rewrite ?cmap_id, ?(map_id_ext idx_id) by reflexivity; reflexivity]
+        | solve [intros; assumption] ].
+
+Section Corollaries.
+  Variable ctx X : Type.
+  Variable exec : call ctx -> ctx -> option (ctx * list event).
+  Variable eval : call ctx -> ctx -> option bool.
+  Variable emit : Z -> meta -> X -> X * option err.
+
+  (* ---------------- goal 2: children lists / dictionaries declared in another order ---------------- *)
+  Section DeclChildren.
+    Variable sc1 sc2 : chart.
+    Hypothesis HSE : struct_equiv sc1 sc2.
+
+    Corollary C07_decl_ancestors n : ancestors_for sc2 n = ancestors_for sc1 n.
+    Proof. destruct HSE. eapply c7_anc; eassumption. Qed.
+    Corollary C07_decl_depth n : depth_for sc2 n = depth_for sc1 n.
+    Proof. destruct HSE. eapply c7_depth; eassumption. Qed.
+    Corollary C07_decl_lca a b : least_common_ancestor sc2 a b = least_common_ancestor sc1 a b.
+    Proof. destruct HSE. eapply c7_lca; eassumption. Qed.
+    Corollary C07_decl_descendants n :
+      Permutation (descendants_for sc1 n) (descendants_for sc2 n)
+      /\ sort (exit_order_leb sc2) (descendants_for sc2 n) = sort (exit_order_leb sc1) (descendants_for sc1 n).
+    Proof. destruct HSE. split; [auto|]. eapply c7_sorted_desc; eassumption. Qed.
+    Corollary C07_decl_sorted_children n :
+      sort_names (children_for sc2 n) = sort_names (children_for sc1 n).
+    Proof. destruct HSE. symmetry. apply c7_sort_names_perm. auto. Qed.
+    Corollary C07_decl_root : root sc2 = root sc1.
+    Proof. apply HSE. Qed.
+    Corollary C07_decl_stays_below lca t : stays_below sc2 lca t = stays_below sc1 lca t.
+    Proof. destruct HSE. eapply c7_stays_below; eassumption. Qed.
+    Corollary C07_decl_check_pair t1 t2 : check_pair sc2 t1 t2 = check_pair sc1 t1 t2.
+    Proof. destruct HSE. eapply c7_check_pair; eassumption. Qed.
+    Corollary C07_decl_create_step cfg1 cfg2 ev it :
+      Permutation cfg1 cfg2 -> create_step sc2 cfg2 ev it = create_step sc1 cfg1 ev it.
+    Proof.
+      intros HP. destruct HSE.
+      rewrite <- (imap_id it) at 1. rewrite <- (mmap_id (create_step sc1 cfg1 ev it)).
+      eapply c7_create_step; eassumption.
+    Qed.
+    Corollary C07_decl_leaf_for cfg1 cfg2 :
+      Permutation cfg1 cfg2 ->
+      Permutation (leaf_for sc1 cfg1) (leaf_for sc2 cfg2)
+      /\ sort (leaf_order_leb sc2) (leaf_for sc2 cfg2) = sort (leaf_order_leb sc1) (leaf_for sc1 cfg1).
+    Proof.
+      intros HP. destruct HSE.
+      assert (HL : Permutation (leaf_for sc1 cfg1) (leaf_for sc2 cfg2)) by (eapply c7_leaf_for; eassumption).
+      split; [exact HL|].
+      rewrite (c7_sort_ext (leaf_order_leb sc2) (exit_order_leb sc1) _
+                 (c7_exit_order sc1 sc2 se_parent0 se_plen0)).
+      symmetry. apply c7_sort_exit_perm. exact HL.
+    Qed.
+    Corollary C07_decl_configuration cfg1 cfg2 :
+      Permutation cfg1 cfg2 -> configuration sc2 cfg2 = configuration sc1 cfg1.
+    Proof. intros HP. destruct HSE. eapply c7_configuration; eassumption. Qed.
+    Corollary C07_decl_stabilization_step (i1 i2 : istate ctx) :
+      hs_equiv i1 i2 -> create_stabilization_step ctx sc2 i2 = create_stabilization_step ctx sc1 i1.
+    Proof.
+      intros HI. apply hs_equiv_IR in HI. destruct HSE. eapply (c7_css sc1 sc2 idx_id); eassumption.
+    Qed.
+    Corollary C07_decl_record_history active1 active2 st (s1 s2 : mstate ctx X) :
+      Permutation active1 active2 -> ms_equiv s1 s2 ->
+      same_outcome (record_history ctx X sc1 active1 st s1) (record_history ctx X sc2 active2 st s2).
+    Proof.
+      intros HP HS. apply same_outcome_of_sim; [|exact HS].
+      eapply sim_weaken; [|destruct HSE; eapply (sim_record_history sc1 sc2 idx_id); try eassumption;
+                           c7_id_side].
+      intros [] [] _. reflexivity.
+    Qed.
+
+    (* transitions in the same order: selection (result and trace of guard evaluations), full runs *)
+    Hypothesis Htrs : c_transitions sc2 = c_transitions sc1.
+
+    Corollary C07_decl_select_transitions ev cfg1 cfg2 (s1 s2 : mstate ctx X) :
+      Permutation cfg1 cfg2 -> ms_equiv s1 s2 ->
+      same_outcome (select_transitions ctx X eval sc1 ev cfg1 s1)
+                   (select_transitions ctx X eval sc2 ev cfg2 s2).
+    Proof.
+      intros HP HS. apply same_outcome_of_sim; [|exact HS].
+      eapply sim_weaken;
+        [|destruct HSE; eapply (sim_select_A sc1 sc2 idx_id); try eassumption;
+          try (apply itransitions_id; exact Htrs); try (intros i; rewrite Htrs; reflexivity);
+          c7_id_side].
+      intros a b ->. symmetry. apply map_id_ext. apply imap_id.
+    Qed.
+
+    Corollary C07_decl_children_ops ops (s1 s2 : mstate ctx X) :
+      ms_equiv s1 s2 ->
+      same_outcome (run_ops ctx X exec eval emit sc1 ops s1) (run_ops ctx X exec eval emit sc2 ops s2).
+    Proof.
+      intros HS. apply same_outcome_of_sim; [|exact HS].
+      eapply sim_weaken;
+        [|destruct HSE; eapply (sim_run_ops sc1 sc2 idx_id); try eassumption; try c7_id_side].
+      - intros a b ->. symmetry. unfold macsmap. apply map_id_ext. intros [t ex]. cbn [fst snd].
+        rewrite (map_id_ext _ _ mmap_id). reflexivity.
+      - intros fuel now.
+        eapply (sim_execute_once_A sc1 sc2 idx_id); try eassumption;
+          try (apply itransitions_id; exact Htrs); try (intros i; rewrite Htrs; reflexivity);
+          c7_id_side.
+    Qed.
+  End DeclChildren.
+
+  (* ---------------- goal 1: the same chart, sets enumerated in another order ---------------- *)
+  Variable sc : chart.
+
+  Corollary C07_hashseed_considered ev cfg1 cfg2 :
+    Permutation cfg1 cfg2 -> considered sc ev cfg2 = considered sc ev cfg1.
+  Proof.
+    intros HP. unfold considered. apply filter_ext. intros it.
+    rewrite (c7_mem_perm _ _ _ HP). reflexivity.
+  Qed.
+  Corollary C07_hashseed_select_transitions ev cfg1 cfg2 (s1 s2 : mstate ctx X) :
+    Permutation cfg1 cfg2 -> ms_equiv s1 s2 ->
+    same_outcome (select_transitions ctx X eval sc ev cfg1 s1) (select_transitions ctx X eval sc ev cfg2 s2).
+  Proof. apply C07_decl_select_transitions; [apply struct_equiv_refl|reflexivity]. Qed.
+  Corollary C07_hashseed_create_steps cfg1 cfg2 ev ts :
+    Permutation cfg1 cfg2 -> create_steps sc cfg2 ev ts = create_steps sc cfg1 ev ts.
+  Proof.
+    intros HP. unfold create_steps. apply map_ext. intros it.
+    apply C07_decl_create_step; [apply struct_equiv_refl|exact HP].
+  Qed.
+  Corollary C07_hashseed_leaf_for cfg1 cfg2 :
+    Permutation cfg1 cfg2 ->
+    Permutation (leaf_for sc cfg1) (leaf_for sc cfg2)
+    /\ sort (leaf_order_leb sc) (leaf_for sc cfg2) = sort (leaf_order_leb sc) (leaf_for sc cfg1).
+  Proof. apply C07_decl_leaf_for. apply struct_equiv_refl. Qed.
+  Corollary C07_hashseed_stabilization_step (i1 i2 : istate ctx) :
+    hs_equiv i1 i2 -> create_stabilization_step ctx sc i2 = create_stabilization_step ctx sc i1.
+  Proof. apply C07_decl_stabilization_step. apply struct_equiv_refl. Qed.
+  Corollary C07_hashseed_configuration cfg1 cfg2 :
+    Permutation cfg1 cfg2 -> configuration sc cfg2 = configuration sc cfg1.
+  Proof. apply C07_decl_configuration. apply struct_equiv_refl. Qed.
+  Corollary C07_hashseed_mk_call (i1 i2 : istate ctx) k o idx cd ev :
+    hs_equiv i1 i2 -> mk_call ctx sc i2 k o idx cd ev = mk_call ctx sc i1 k o idx cd ev.
+  Proof.
+    intros HI. apply hs_equiv_IR in HI. rewrite <- (omap_id o) at 1.
+    rewrite (c7_mk_call sc sc idx_id (fun i => eq_refl) (fun i j H => H) ctx i1 i2 k o idx cd ev (proj1 HI)).
+    apply cmap_id.
+  Qed.
+  Corollary C07_hashseed_record_history active1 active2 st (s1 s2 : mstate ctx X) :
+    Permutation active1 active2 -> ms_equiv s1 s2 ->
+    same_outcome (record_history ctx X sc active1 st s1) (record_history ctx X sc active2 st s2).
+  Proof. apply C07_decl_record_history. apply struct_equiv_refl. Qed.
+  Corollary C07_hashseed_config_updates x cfg1 cfg2 :
+    Permutation cfg1 cfg2 ->
+    Permutation (set_add x cfg1) (set_add x cfg2) /\ Permutation (remove_first x cfg1) (remove_first x cfg2).
+  Proof. intros HP. split; [apply c7_set_add_perm|apply c7_remove_first_perm]; exact HP. Qed.
+  Corollary C07_hashseed_ops ops (s1 s2 : mstate ctx X) :
+    ms_equiv s1 s2 ->
+    same_outcome (run_ops ctx X exec eval emit sc ops s1) (run_ops ctx X exec eval emit sc ops s2).
+  Proof. apply C07_decl_children_ops; [apply struct_equiv_refl|reflexivity]. Qed.
+End Corollaries.
+
+(* ---------------- goal 3: transitions declared in another order ---------------- *)
+Definition select_outcome (pi : nat -> nat) {ctx X}
+           (o1 o2 : mstate ctx X * (list itrans + err)) : Prop :=
+  match o1, o2 with
+  | (s1, inl ts1), (s2, inl ts2) => run_equiv pi s1 s2 /\ BP pi ts1 ts2
+  | (s1, inr e1), (s2, inr e2) => run_equiv_err pi s1 s2 /\ ERB pi e1 e2
+  | _, _ => False
+  end.
+
+(* _select_transitions selects the same transitions (BP: the same blocks, one per source state, in
+   the same order; inside a block the declaration order shows).  The guards are evaluated in another
+   order (the guard observations are not compared by run_equiv) but they are pure, so the values
+   agree; if some guard cannot be evaluated both runs fail with a guard CodeEvaluationError, possibly
+   of different transitions. *)
+Theorem C07_decl_transitions :
+  forall (ctx X : Type) (eval : call ctx -> ctx -> option bool) (sc1 sc2 : chart) (pi : nat -> nat),
+    chart_perm sc1 sc2 pi ->
+    (forall c x, eval (cmap pi c) x = eval c x) ->
+    forall ev cfg1 cfg2 (s1 s2 : mstate ctx X),
+      Permutation cfg1 cfg2 -> run_equiv pi s1 s2 ->
+      select_outcome pi (select_transitions ctx X eval sc1 ev cfg1 s1)
+                        (select_transitions ctx X eval sc2 ev cfg2 s2).
+Proof.
+  intros ctx X eval sc1 sc2 pi [[H1 H2 H3 H4 H5 H6 H7] Htr Hinj Hlen] Heval ev cfg1 cfg2 s1 s2 HP HS.
+  assert (Hsim : sim pi ctx X (RtB pi ctx) (ERB pi) (BP pi)
+                     (select_transitions ctx X eval sc1 ev cfg1) (select_transitions ctx X eval sc2 ev cfg2)).
+  { eapply (sim_select_B sc1 sc2 pi); eassumption. }
+  specialize (Hsim s1 s2 HS). unfold orel in Hsim. unfold select_outcome.
+  destruct (select_transitions ctx X eval sc1 ev cfg1 s1) as [s1' [a|e1]],
+           (select_transitions ctx X eval sc2 ev cfg2 s2) as [s2' [b|e2]]; exact Hsim.
+Qed.
+
+(* the selected sets correspond through the bijection; as records they are the same multiset *)
+Theorem C07_selected_same_set pi ts1 ts2 :
+  (forall i j, pi i = pi j -> i = j) -> BP pi ts1 ts2 ->
+  (forall it, In (imap pi it) ts2 <-> In it ts1) /\ Permutation (map snd ts1) (map snd ts2).
+Proof.
+  intros Hinj HB. split; [apply BP_same_set; assumption|].
+  apply (PM_snd pi). apply BP_perm. exact HB.
+Qed.
+
+(* _sort_transitions: the same error, or the same ordered list of transitions *)
+Theorem C07_sort_transitions_decl :
+  forall (ctx X : Type) (sc1 sc2 : chart) (pi : nat -> nat),
+    chart_perm sc1 sc2 pi ->
+    forall ts1 ts2, BP pi ts1 ts2 ->
+    forall (s1 s2 : mstate ctx X),
+      snd (sort_transitions ctx X sc2 ts2 s2)
+      = match snd (sort_transitions ctx X sc1 ts1 s1) with
+        | inl r => inl (map (imap pi) r)
+        | inr e => inr e
+        end.
+Proof.
+  intros ctx X sc1 sc2 pi [[H1 H2 H3 H4 H5 H6 H7] Htr Hinj Hlen] ts1 ts2 HB s1 s2.
+  rewrite !sort_transitions_pure. cbn [snd].
+  pose proof (C07_error_kind sc1 sc2 pi H1 H2 H3 H5 ts1 ts2 HB) as E2.
+  pose proof (BP_length pi _ _ HB) as HL.
+  destruct (check_pairs sc1 ts1) as [e|] eqn:E.
+  - destruct ts1 as [|a [|b l]]; [discriminate E|discriminate E|].
+    destruct ts2 as [|a2 [|b2 l2]]; try discriminate HL. rewrite E2. reflexivity.
+  - rewrite (BP_none pi sc1 ts1 ts2 HB E) in *.
+    destruct ts1 as [|a [|b l]]; try reflexivity.
+    cbn [map]. cbn [map] in E2. rewrite E2. f_equal.
+    change (imap pi a :: imap pi b :: map (imap pi) l) with (map (imap pi) (a :: b :: l)).
+    apply c7_sort_map. intros x y. eapply c7_trans_order; eassumption.
+Qed.
+
+(* ---------------- goal 4 for sequences of API calls ---------------- *)
+Definition ops_outcome (pi : nat -> nat) {ctx X}
+           (o1 o2 : mstate ctx X * (list macrostep + err)) : Prop :=
+  match o1, o2 with
+  | (s1, inl m1), (s2, inl m2) => run_equiv pi s1 s2 /\ m2 = macsmap pi m1
+  | (s1, inr e1), (s2, inr e2) => run_equiv_err pi s1 s2 /\ ERB pi e1 e2
+  | _, _ => False
+  end.
+
+Theorem C07_decl_order_ops :
+  forall (ctx X : Type) (exec : call ctx -> ctx -> option (ctx * list event))
+         (eval : call ctx -> ctx -> option bool) (emit : Z -> meta -> X -> X * option err)
+         (sc1 sc2 : chart) (pi : nat -> nat),
+    chart_perm sc1 sc2 pi ->
+    (forall c x, exec (cmap pi c) x = exec c x) ->
+    (forall c x, eval (cmap pi c) x = eval c x) ->
+    (forall t m x e, snd (emit t m x) = Some e -> emap pi e = e) ->
+    forall ops (s1 s2 : mstate ctx X),
+      run_equiv pi s1 s2 ->
+      ops_outcome pi (run_ops ctx X exec eval emit sc1 ops s1) (run_ops ctx X exec eval emit sc2 ops s2).
+Proof.
+  intros ctx X exec eval emit sc1 sc2 pi [[H1 H2 H3 H4 H5 H6 H7] Htr Hinj Hlen] Hexec Heval Hemit
+         ops s1 s2 HS.
+  assert (Hsim : sim pi ctx X (RtB pi ctx) (ERB pi) (fun a b => b = macsmap pi a)
+                     (run_ops ctx X exec eval emit sc1 ops) (run_ops ctx X exec eval emit sc2 ops)).
+  { eapply (sim_run_ops sc1 sc2 pi); try eassumption.
+    - apply ERB_map.
+    - intros fuel now. eapply (sim_execute_once_B sc1 sc2 pi); eassumption. }
+  specialize (Hsim s1 s2 HS). unfold orel in Hsim. unfold ops_outcome.
+  destruct (run_ops ctx X exec eval emit sc1 ops s1) as [s1' [a|e1]],
+           (run_ops ctx X exec eval emit sc2 ops s2) as [s2' [b|e2]]; exact Hsim.
+Qed.
+
+(* ---------------- more non-vacuity: structure-only reordering, error cases ---------------- *)
+(* only the dictionaries and the children lists are reversed, the transitions keep their order *)
+Definition rev_struct_chart (sc : chart) : chart :=
+  mkChart (c_name sc) (c_description sc) (c_preamble sc)
+          (rev (c_states sc)) (rev (c_parent sc))
+          (rev (map (fun p => (fst p, rev (snd p))) (c_children sc)))
+          (c_transitions sc).
+
+Lemma perm_chart_rev_struct sc : perm_chart sc (rev_struct_chart sc).
+Proof.
+  constructor; cbn [rev_struct_chart c_states c_parent c_children c_transitions];
+    try apply Permutation_rev; try apply Permutation_refl.
+  exists (rev (c_children sc)). split; [apply Permutation_rev|].
+  rewrite <- map_rev. induction (rev (c_children sc)) as [|[k l] d IH]; simpl; constructor; [|exact IH].
+  cbn [fst snd]. split; [reflexivity|apply Permutation_rev].
+Qed.
+
+Example c07_struct_equiv : struct_equiv c07_chart (rev_struct_chart c07_chart).
+Proof.
+  apply perm_chart_struct; [apply perm_chart_rev_struct|apply c07_decl_wf|apply c07_desc_ok|].
+  apply desc_okb_sound. vm_compute. reflexivity.
+Qed.
+
+(* C07_decl_children on this instance: identical results, listener states AND observation traces *)
+Definition c07_run_trace (sc : chart) :=
+  let step s := execute_once unit (list meta) c07_exec c07_eval c07_emit sc 50 0 s in
+  let q e s := fst (queue unit (list meta) (mkEvent External e []) s) in
+  let '(s1, r1) := step c07_init in
+  let '(s2, r2) := step (q "go" s1) in
+  let '(s3, r3) := step (q "reset" s2) in
+  ([r1; r2; r3], m_tr s3, m_x s3).
+
+Example c07_decl_children_runs :
+  c07_run_trace (rev_struct_chart c07_chart) = c07_run_trace c07_chart
+  /\ children_for (rev_struct_chart c07_chart) "A" = ["hA"; "a2"; "a1"].
+Proof. vm_compute. split; reflexivity. Qed.
+
+Example c07_decl_children_instance :
+  forall fuel now,
+    same_outcome
+      (execute_once unit (list meta) c07_exec c07_eval c07_emit c07_chart fuel now c07_init)
+      (execute_once unit (list meta) c07_exec c07_eval c07_emit (rev_struct_chart c07_chart) fuel now c07_init).
+Proof.
+  intros fuel now. apply C07_decl_children; [apply c07_struct_equiv|reflexivity|].
+  split; [apply hs_equiv_refl|split; reflexivity].
+Qed.
+
+(* two enabled transitions with the same source: both declaration orders raise the same error *)
+Definition c07_nd_chart : chart :=
+  mkChart "nd" None None (c_states c07_chart) (c_parent c07_chart) (c_children c07_chart)
+    [mkTrans "a1" (Some "a2") (Some "go") (Some "g0") None 0 [] [] [];
+     mkTrans "b1" (Some "b2") (Some "go") None None 0 [] [] [];
+     mkTrans "a1" (Some "a1") (Some "go") (Some "g1") None 0 [] [] []].
+
+Definition c07_nd_state : mstate unit (list meta) :=
+  mkM (mkIState 0 true 0 [] ["root"; "P"; "A"; "B"; "a1"; "b1"] [] [] [] []
+                [(0%Z, mkEvent External "go" [])] false tt []) [] [].
+
+Example c07_same_error :
+  snd (execute_once unit (list meta) c07_exec c07_eval c07_emit c07_nd_chart 50 0 c07_nd_state)
+    = inr ENonDeterminism
+  /\ snd (execute_once unit (list meta) c07_exec c07_eval c07_emit (rev_chart c07_nd_chart) 50 0 c07_nd_state)
+    = inr ENonDeterminism.
+Proof. vm_compute. split; reflexivity. Qed.
+
+(* The disjunct "two guard evaluation errors" of ERB cannot be dropped: when the guards of two
+   transitions of one source both raise, the error reported is the one of the transition declared
+   first, i.e. it is attributed to another transition in the other declaration order (same KIND of
+   error, as C07 demands; not the same error object). *)
+Definition c07_eval_fail (c : call unit) (x : unit) : option bool := None.
+Definition c07_nd_pi (i : nat) : nat := if Nat.ltb i 3 then (2 - i)%nat else i.
+
+Theorem C07_guard_error_owner_refuted :
+  exists e1 e2,
+    snd (execute_once unit (list meta) c07_exec c07_eval_fail c07_emit c07_nd_chart 50 0 c07_nd_state)
+      = inr e1
+    /\ snd (execute_once unit (list meta) c07_exec c07_eval_fail c07_emit (rev_chart c07_nd_chart) 50 0
+              c07_nd_state) = inr e2
+    /\ (forall i, nth_error (c_transitions (rev_chart c07_nd_chart)) (c07_nd_pi i)
+                   = nth_error (c_transitions c07_nd_chart) i)
+    /\ e2 <> emap c07_nd_pi e1
+    /\ ERB c07_nd_pi e1 e2.
+Proof.
+  exists (ECode CGuard (OTrans 0) 0), (ECode CGuard (OTrans 0) 0).
+  split; [vm_compute; reflexivity|]. split; [vm_compute; reflexivity|]. split.
+  - intros i. do 3 (destruct i as [|i]; [reflexivity|]). destruct i; reflexivity.
+  - split; [vm_compute; discriminate|]. right. exists (OTrans 0), (OTrans 0). split; reflexivity.
+Qed.
+
+(* C07_function: the model is a function of chart, evaluator, listeners and inputs (trivially) *)
+Theorem C07_function :
+  forall ctx X exec eval emit sc ops (s s' : mstate ctx X),
+    s = s' -> run_ops ctx X exec eval emit sc ops s = run_ops ctx X exec eval emit sc ops s'.
+Proof. intros. subst. reflexivity. Qed.
+
 Print Assumptions C07_hashseed_execute_once.
+Print Assumptions C07_hashseed_ops.
+Print Assumptions C07_decl_children.
+Print Assumptions C07_decl_children_ops.
+Print Assumptions C07_error_kind.
+Print Assumptions C07_decl_transitions.
+Print Assumptions C07_sort_transitions_decl.
+Print Assumptions C07_decl_order_ops.
+Print Assumptions C07_decl_order.
+Print Assumptions C07_decl_order_perm.
+Print Assumptions perm_chart_rev.
+Print Assumptions c07_same_runs.
+Print Assumptions c07_decl_children_instance.
+Print Assumptions C07_guard_error_owner_refuted.
+Print Assumptions c07_decl_order_instance.
